@@ -7,7 +7,7 @@ TWIN_OF = {   # function under contract -> twin harness name (native) / kani har
     'parse_string_literal': ('parse_string_literal', 'twin_parse_string_literal'),
     'parse_character_literal': ('parse_character_literal', 'twin_parse_character_literal'),
     'parse_character_range': ('parse_character_range', 'twin_parse_character_range'),
-    'parse_string_literal_insensitive': ('parse_string_literal_insensitive', 'twin_parse_string_literal_insensitive'),
+    'parse_string_literal_insensitive': ('parse_string_literal_insensitive', None),   # Kani: no verdict within 40 min / 40 GB
     'parse_character_literal_insensitive': ('parse_character_literal_insensitive', 'twin_parse_character_literal_insensitive'),
     'parse_end_of_input': ('parse_end_of_input', 'twin_parse_end_of_input'),
     'ParseState::advance_safe': ('ParseState::advance_safe', 'twin_advance_safe'),
@@ -22,8 +22,8 @@ TWIN_OF = {   # function under contract -> twin harness name (native) / kani har
     'ChoiceHelper::choice': ('ChoiceHelper::choice', 'twin_choice_helper'),
     'ChoiceHelper::end': ('ChoiceHelper::choice', 'twin_choice_helper'),
     'ChoiceHelper::new': ('ChoiceHelper::choice', 'twin_choice_helper'),
-    'ParseState::first_n_chars': ('ParseState::first_n_chars', 'twin_first_n_chars'),
-    'CacheEntries': ('CacheEntries', 'twin_cache_map'),
+    'ParseState::first_n_chars': ('ParseState::first_n_chars', None),                   # Kani: no verdict within 40 min
+    'CacheEntries': ('CacheEntries', None),                                             # Kani: hashbrown internals, no verdict within 40 min
     'IndentedTracer': ('IndentedTracer', None),
     'IndentedTracer::print_trace_start': ('IndentedTracer', None),
     'IndentedTracer::print_trace_result': ('IndentedTracer', None),
@@ -71,7 +71,7 @@ def enumerate_native(ctx, fn, timeout=300):
             return {'status': 'fail', 'twin': name, 'why': json.loads(m.group(3)), 'case': case, 'kv': (m.group(5) or '').split()}
     return {'status': 'error', 'why': 'no verdict from native twin: ' + (p.stdout + p.stderr)[-500:]}
 
-def kani(ctx, fn, timeout=600):
+def kani(ctx, fn, timeout=1200):
     d = prepare(ctx)
     if d is None: return {'status': 'error', 'why': 'twin crate does not build'}
     native, harness = TWIN_OF[fn]
